@@ -496,6 +496,9 @@ class _ValueClassInstance(DefaultVisitor):
                 return self._rounded(e, _map(_LOGB, a))
             case AMin() | AMax() | Fst() | Snd():
                 return _TOP          # passes an operand through; see `_rounded`
+            case Sum():
+                # the sum of a one-element list is that element, unrounded
+                return _TOP
             case _:
                 return self._rounded(e, _TOP)
 
